@@ -340,6 +340,48 @@ harnesses! {
             0.75f64, 2.0f64, 12, 2);
     }
 
+
+    #[kani::unwind(4)]
+    fn c12_rel_ffo_a(nd) {
+        let (orig, max) = (0.75f64, 3.0f64);
+        let mut r = FastFixedOut::<f64>::new(orig, max, PolynomialDegree::Cubic, 2, 1).unwrap();
+        rel_checks!(nd, r, orig, max);
+        forget(r);
+    }
+    #[kani::unwind(6)]
+    fn c12_rel_sfo_a(nd) {
+        let (orig, max) = (1.25f64, 1.5f64);
+        let mut r = SincFixedOut::<f64>::new_with_interpolator(
+            orig, max, SincInterpolationType::Nearest, probe::boxed64(2, 1), 2, 1).unwrap();
+        rel_checks!(nd, r, orig, max);
+        forget(r);
+    }
+
+    // ---- two successive chunk-size changes: the accepted range never depends on the current size
+    #[kani::unwind(6)]
+    fn c12_chunk_twice(nd) {
+        let mut a = SincFixedIn::<f64>::new_with_interpolator(
+            1.0, 2.0, SincInterpolationType::Nearest, probe::boxed64(2, 1), 5, 1).unwrap();
+        let mut b = SincFixedOut::<f64>::new_with_interpolator(
+            1.0, 2.0, SincInterpolationType::Nearest, probe::boxed64(2, 1), 5, 1).unwrap();
+        let c1 = nd.usize();
+        let c2 = nd.usize();
+        let ra1 = a.set_chunk_size(c1);
+        let rb1 = b.set_chunk_size(c1);
+        let ra2 = a.set_chunk_size(c2);
+        let rb2 = b.set_chunk_size(c2);
+        check!(ra1.is_ok() == (c1 >= 1 && c1 <= 5) && rb1.is_ok() == (c1 >= 1 && c1 <= 5), "C12.chunk_iff[base]");
+        check!(ra2.is_ok() == (c2 >= 1 && c2 <= 5) && rb2.is_ok() == (c2 >= 1 && c2 <= 5), "C12.chunk_iff_second[base]");
+        if let Err(ResampleError::InvalidChunkSize { max, requested }) = &ra2 {
+            check!(*max == 5 && *requested == c2, "C12.chunk_err_fields[base]");
+        }
+        let want = if c2 >= 1 && c2 <= 5 { c2 } else if c1 >= 1 && c1 <= 5 { c1 } else { 5 };
+        check!(a.input_frames_next() == want && b.output_frames_next() == want, "C12.chunk_getter[base]");
+        check!(a.input_frames_max() == 5 && b.output_frames_max() == 5, "C12.chunk_max_unchanged[base]");
+        cover!(ra1.is_ok() && ra2.is_ok() && c2 > c1, "shrink then grow accepted");
+        forget(a); forget(b);
+    }
+
     // ---- a rejected call changes nothing: the next call equals a twin's
     #[kani::unwind(12)]
     fn c12_rejected_noop_ffo(nd) {
